@@ -3,9 +3,10 @@
 The implementation's plane-type transition function is *observed exhaustively* on the real classes
 of the working tree (imported through harness.common.import_lentil()):
 
-  every wavefront state (ptype none/pupil/image  x  carries tilt objects or not)
-    x  Plane(ptype=p) for every p in lentil.ptype.PTYPES
-    x  every public plane class of the `lentil` namespace
+  every wavefront state (ptype none/pupil/image  x  content: fields without tilt / fields with tilt
+                         objects / no fields at all)
+    x  Plane(ptype=p) for every p in lentil.ptype.PTYPES      } each with an overlapping aperture and
+    x  every public plane class of the `lentil` namespace     } with one disjoint from all the light
     x  propagate_dft / propagate_fft
 
 with real (small) arrays, several constructions of every object.  Recorded per cell: the state of
@@ -13,9 +14,13 @@ the returned wavefront, or the exception class and the state the operand is left
 is finite and enumerated completely, so the emitted Gallina functions ARE the implementation's
 transition function on that domain, not a sample of it.
 
+Every multiplication cell is observed a second time with a plane object (and a copy() of it) that
+was used before in a different permitted cell: the outcome must not depend on the plane's history.
+
 Fail closed: an unknown ptype object, a different PTYPES tuple, a public plane class that cannot
-be constructed, a step whose outcome differs between two constructions of the same types
-(behaviour is not a function of the types) => GeneratorError => the runner reports a broken tie.
+be constructed, a step whose outcome differs between two constructions of the same types or
+between a fresh and a used plane object (behaviour is not a function of the types)
+=> GeneratorError => the runner reports a broken tie.
 
 This module also owns the builders of real objects shared with harness/props/c08.py.
 """
@@ -29,6 +34,8 @@ import numpy as np
 from . import common as C
 
 WTYPES = ['none', 'pupil', 'image']
+BODIES = ['plain', 'tilted', 'empty']
+B_CON = {'plain': 'Plain', 'tilted': 'Tilted', 'empty': 'Empty'}
 PTYPES = ['none', 'pupil', 'image', 'tilt', 'transform']
 METHODS = ['dft', 'fft']
 W_CON = {'none': 'WNone', 'pupil': 'WPupil', 'image': 'WImage'}
@@ -95,22 +102,50 @@ PLANE_VARIANTS = [
     lambda: dict(amplitude=np.ones((4, 4)), mask=_seg_mask(), pixelscale=1),
     lambda: dict(amplitude=2.0, opd=0.5),
     lambda: dict(amplitude=np.ones((4, 4)), opd=_ramp((4, 4)) / 16.0, pixelscale=(1, 1)),
+    # other legal argument forms: integer, bool and float32 arrays, 0-d arrays, explicit masks
+    lambda: dict(amplitude=np.ones((4, 4), dtype=int), opd=np.zeros((4, 4), dtype=int)),
+    lambda: dict(amplitude=_bordered().astype(bool)),
+    lambda: dict(amplitude=_ramp((5, 4)).astype(np.float32), opd=np.float32(0.125), pixelscale=1.0),
+    lambda: dict(amplitude=np.array(1.5), opd=np.array(0.0), mask=np.ones((4, 4), dtype=np.uint8)),
 ]
-# Tilts are kept small: one tilt plane displaces the propagated field by at most 1/8 output sample
-# (angle * focal length / pixel scale), so that even 40 of them leave part of the field inside the
-# smallest DFT window.  A wavefront propagated wholly outside the window has no fields at all, and
-# then no tilt bit to observe.
-TILT_A = 1.0 / 128
+# Tilts are kept small: one tilt plane displaces the propagated field by at most 1/32 output sample
+# (angle * focal length / pixel scale), so that 40 of them displace it by little more than one sample
+# and every centred aperture still overlaps it.  A wavefront loses all its fields only where the
+# program says so (clip = a plane whose aperture is disjoint from all the light).
+TILT_A = 1.0 / 512
 TILT_VARIANTS = [(0.0, 0.0), (TILT_A, 0.0), (0.0, -TILT_A), (TILT_A, TILT_A)]
-DISP_VARIANTS = [([1.0, 0.0], [1.0, 1.0]), ([0.0, 0.0625], [16.0, 0.0]), ([1.0, 0.0], [32.0, 0.0])]
+DISP_VARIANTS = [([1.0, 0.0], [1.0, 1.0]), ([0.0, 1.0 / 64], [64.0, 0.0]), ([1.0, 0.0], [128.0, 0.0])]
 ROT_VARIANTS = [dict(angle=90), dict(angle=0), dict(angle=30, order=1), dict(angle=1.0, unit='radians')]
 FLIP_VARIANTS = [dict(axis=None), dict(axis=0), dict(axis=1)]
 # (du, oversample, shape) for the DFT; (du, oversample, shape) for the FFT
-DFT_VARIANTS = [(2, 2, (4, 4)), (1, 1, 4), (3, 3, (2, 3)), (2, 2, (3, 5)), (1, 1, (8, 8))]
-FFT_VARIANTS = [(2, 2, None), (1, 1, None), (2, 2, 2), (1, 1, (4, 4))]
+DFT_VARIANTS = [(2, 2, (4, 4)), (1, 1, 4), (3, 3, (2, 3)), (2, 2, (3, 5)), (1, 1, (8, 8)),
+                ((2, 2), 2, [4, 4]), (np.array([1.0, 1.0]), 1, np.array([5, 4]))]
+FFT_VARIANTS = [(2, 2, None), (1, 1, None), (2, 2, 2), (1, 1, (4, 4)), ((2.0, 2.0), 2, None), ([1, 1], 1, [3, 4])]
 
 
-def n_variants(kind, name):
+def _corner(which):
+    """a 64x64 aperture open only in one far corner: disjoint from every field this harness produces
+    (all of them lie within 16 samples of the centre)"""
+    a = np.zeros((64, 64))
+    if which == 0:
+        a[0:2, 0:3] = 1.0
+    else:
+        a[61:64, 62:64] = 1.0
+    return a
+
+
+CLIP_VARIANTS = [
+    lambda: dict(amplitude=_corner(0)),
+    lambda: dict(amplitude=_corner(1), pixelscale=1),
+    lambda: dict(amplitude=_corner(0) * 2.0, opd=0.25),
+]
+
+
+def n_variants(kind, name, clip=False):
+    if kind == 'fresh':
+        return 2
+    if clip and kind in ('mulp', 'mulc') and name not in ('Rotate', 'Flip'):
+        return len(CLIP_VARIANTS) * (len(FOCAL) if name == 'Pupil' else 1)
     if kind == 'mulp':
         return len(PLANE_VARIANTS)
     if kind == 'prop':
@@ -128,29 +163,31 @@ def n_variants(kind, name):
     return len(PLANE_VARIANTS)
 
 
-def build_plane(lentil, kind, name, v):
+def build_plane(lentil, kind, name, v, clip=False):
     """kind 'mulp': Plane(ptype=name, ...);  kind 'mulc': an instance of the public class `name`.
-    v selects one of the constructions.  Raises GeneratorError if the object cannot be built."""
+    v selects one of the constructions; clip=True asks for an aperture disjoint from all the light
+    (ignored by Rotate and Flip, which take no aperture).
+    Raises GeneratorError if the object cannot be built."""
     with warnings.catch_warnings():
         warnings.simplefilter('ignore')
         try:
+            samp = (CLIP_VARIANTS[v % len(CLIP_VARIANTS)] if clip else PLANE_VARIANTS[v % len(PLANE_VARIANTS)])
+            nsamp = len(CLIP_VARIANTS) if clip else len(PLANE_VARIANTS)
             if kind == 'mulp':
                 if name not in PTYPES:
                     raise GeneratorError(f'unknown plane type {name!r}')
-                kw = PLANE_VARIANTS[v % len(PLANE_VARIANTS)]()
-                return lentil.Plane(ptype=getattr(lentil, name), **kw)
+                return lentil.Plane(ptype=(name if v % 2 else getattr(lentil, name)), **samp())
             cls = getattr(lentil, name)
             if name == 'Plane':
-                return cls(**PLANE_VARIANTS[v % len(PLANE_VARIANTS)]())
+                return cls(**samp())
             if name == 'Pupil':
-                kw = PLANE_VARIANTS[v % len(PLANE_VARIANTS)]()
-                return cls(focal_length=FOCAL[(v // len(PLANE_VARIANTS)) % len(FOCAL)], **kw)
+                return cls(focal_length=FOCAL[(v // nsamp) % len(FOCAL)], **samp())
             if name == 'Tilt':
                 x, y = TILT_VARIANTS[v % len(TILT_VARIANTS)]
-                return cls(x=x, y=y)
+                return cls(x=x, y=y, **(samp() if clip else {}))
             if name in ('DispersiveTilt', 'Grism'):
                 tr, di = DISP_VARIANTS[v % len(DISP_VARIANTS)]
-                return cls(trace=list(tr), dispersion=list(di))
+                return cls(trace=list(tr), dispersion=list(di), **(samp() if clip else {}))
             if name == 'Rotate':
                 return cls(**ROT_VARIANTS[v % len(ROT_VARIANTS)])
             if name == 'Flip':
@@ -158,24 +195,33 @@ def build_plane(lentil, kind, name, v):
             # Image, LensletArray and any public class this file has no recipe for: the Plane
             # keywords, then no arguments at all
             try:
-                return cls(**PLANE_VARIANTS[v % len(PLANE_VARIANTS)]())
+                return cls(**samp())
             except TypeError:
+                if clip:
+                    raise
                 return cls()
         except GeneratorError:
             raise
         except Exception as e:
-            raise GeneratorError(f'cannot construct {kind} {name} (variant {v}): {type(e).__name__}: {e}')
+            raise GeneratorError(f'cannot construct {kind} {name} (variant {v}, clip={clip}): {type(e).__name__}: {e}')
 
 
-def build_wavefront(lentil, wt, tilted):
-    """a wavefront of type wt with real 4x4 field data, with or without a tilt object on its field"""
-    if wt not in WTYPES:
-        raise GeneratorError(f'unknown wavefront type {wt!r}')
-    w = lentil.Wavefront(WL, pixelscale=1, focal_length=FOCAL[0], tilt=[TILT_A, 0.0] if tilted else None)
-    w = w * lentil.Plane(amplitude=_ramp((4, 4)))
-    w.ptype = getattr(lentil, wt)
-    if state_of(w) != (wt, bool(tilted)):
-        raise GeneratorError(f'could not build a wavefront in state ({wt}, tilted={tilted}): got {state_of(w)}')
+def build_wavefront(lentil, wt, body, v=0):
+    """a wavefront of type wt: 'plain' real 4x4 field data, 'tilted' the same with a tilt object on its
+    field, 'empty' no fields at all (v even: the public Wavefront.empty constructor; v odd: a plain
+    wavefront whose light a disjoint aperture clipped away)"""
+    if wt not in WTYPES or body not in BODIES:
+        raise GeneratorError(f'unknown wavefront state {(wt, body)!r}')
+    if body == 'empty' and v % 2 == 0:
+        w = lentil.Wavefront.empty(WL, pixelscale=1, focal_length=FOCAL[0], shape=(4, 4))
+    else:
+        w = lentil.Wavefront(WL, pixelscale=1, focal_length=FOCAL[0], tilt=[TILT_A, 0.0] if body == 'tilted' else None)
+        w = w * lentil.Plane(amplitude=_ramp((4, 4)))
+        if body == 'empty':
+            w = w * lentil.Plane(amplitude=_corner(1))
+    w.ptype = wt if v % 2 else getattr(lentil, wt)      # both documented forms of a plane type
+    if state_of(w) != (wt, body):
+        raise GeneratorError(f'could not build a wavefront in state ({wt}, {body}): got {state_of(w)}')
     return w
 
 
@@ -207,11 +253,13 @@ def state_of(w):
     s = ptype_name(w.ptype)
     if s not in WTYPES:
         raise GeneratorError(f'wavefront carries plane type {s!r}')
-    return (s, any(bool(f.tilt) for f in w.data))
+    if not isinstance(w.data, list):
+        raise GeneratorError(f'wavefront data is a {type(w.data).__name__}')
+    return (s, 'empty' if len(w.data) == 0 else 'tilted' if any(bool(f.tilt) for f in w.data) else 'plain')
 
 
 def observe(lentil, fn, w):
-    """('yields', (type, tilted)) | ('raises', exception class name, (type, tilted) of the operand)"""
+    """('yields', (type, content)) | ('raises', exception class name, (type, content) of the operand)"""
     try:
         with warnings.catch_warnings():
             warnings.simplefilter('ignore')
@@ -234,57 +282,98 @@ def observe_all():
     for n in PTYPES:
         ptype_name(getattr(lentil, n))
     classes = class_names(lentil)
-    states = [(wt, tl) for wt in WTYPES for tl in (False, True)]
+    states = [(wt, b) for wt in WTYPES for b in BODIES]
 
-    def cell(kind, name, st):
+    def cell(kind, name, clip, st):
         seen = {}
-        for v in range(n_variants(kind, name)):
-            w = build_wavefront(lentil, *st)
-            if kind == 'prop':
-                o = observe(lentil, lambda ww: do_propagate(lentil, name, ww, v), w)
-            else:
-                pl = build_plane(lentil, kind, name, v)
-                o = observe(lentil, lambda ww: ww * pl, w)
-                o2 = observe(lentil, pl.multiply, build_wavefront(lentil, *st))
-                if o2 != o:
-                    raise GeneratorError(f'{kind} {name}: w * plane gives {o}, plane.multiply(w) gives {o2}')
-            seen.setdefault(o, v)
+        nv = n_variants(kind, name, clip)
+        for v in range(nv):
+            for wv in ((0, 1) if st[1] == 'empty' else (v % 2,)):
+                w = build_wavefront(lentil, st[0], st[1], wv)
+                if kind == 'prop':
+                    o = observe(lentil, lambda ww: do_propagate(lentil, name, ww, v), w)
+                else:
+                    pl = build_plane(lentil, kind, name, v, clip)
+                    o = observe(lentil, lambda ww: ww * pl, w)
+                    o2 = observe(lentil, pl.multiply, build_wavefront(lentil, st[0], st[1], wv))
+                    if o2 != o:
+                        raise GeneratorError(f'{kind} {name}: w * plane gives {o}, plane.multiply(w) gives {o2}')
+                seen.setdefault(o, (v, wv))
         if len(seen) != 1:
-            raise GeneratorError(f'{kind} {name} on {st}: outcome depends on the construction, not only on '
-                                 f'the types: {seen}')
+            raise GeneratorError(f'{kind} {name} (clip={clip}) on {st}: outcome depends on the construction, not only '
+                                 f'on the types: {seen}')
         return next(iter(seen))
 
     obs = {'classes': classes, 'states': states, 'mul': {}, 'cls': {}, 'prop': {}, 'class_ptype': {}}
     for st in states:
-        for p in PTYPES:
-            obs['mul'][(st, p)] = cell('mulp', p, st)
-        for k in classes:
-            obs['cls'][(k, st)] = cell('mulc', k, st)
+        for clip in (False, True):
+            for p in PTYPES:
+                obs['mul'][(st, p, clip)] = cell('mulp', p, clip, st)
+            for k in classes:
+                obs['cls'][(k, clip, st)] = cell('mulc', k, clip, st)
         for m in METHODS:
-            obs['prop'][(m, st)] = cell('prop', m, st)
+            obs['prop'][(m, st)] = cell('prop', m, False, st)
     for k in classes:
-        pts = {ptype_name(build_plane(lentil, 'mulc', k, v).ptype) for v in range(n_variants('mulc', k))}
+        pts = {ptype_name(build_plane(lentil, 'mulc', k, v, clip).ptype)
+               for clip in (False, True) for v in range(n_variants('mulc', k, clip))}
         if len(pts) != 1:
             raise GeneratorError(f'class {k}: ptype depends on the construction: {pts}')
         obs['class_ptype'][k] = pts.pop()
+
+    # ---- history of the plane object: every cell again with a plane that was used before in a
+    # different permitted cell (another wavefront type), directly and through copy()
+    n_hist = 0
+    specs = [('mulp', p, clip) for p in PTYPES for clip in (False, True)] + \
+            [('mulc', k, clip) for k in classes for clip in (False, True)]
+    for kind, name, clip in specs:
+        tab = (lambda st: obs['mul'][(st, name, clip)]) if kind == 'mulp' else (lambda st: obs['cls'][(name, clip, st)])
+        v = 0
+        for w0 in WTYPES:
+            if tab((w0, 'plain'))[0] != 'yields':
+                continue
+            for st in states:
+                if st[0] == w0:
+                    continue
+                for via_copy in (False, True):
+                    v += 1
+                    pl = build_plane(lentil, kind, name, v % n_variants(kind, name, clip), clip)
+                    first = observe(lentil, lambda ww: ww * pl, build_wavefront(lentil, w0, 'plain'))
+                    if first != tab((w0, 'plain')):
+                        raise GeneratorError(f'{kind} {name} on {(w0, "plain")}: {first} now, {tab((w0, "plain"))} before')
+                    used = pl.copy() if via_copy else pl
+                    if type(used) is not type(pl):
+                        raise GeneratorError(f'{name}.copy() returned a {type(used).__name__}')
+                    o = observe(lentil, lambda ww: ww * used, build_wavefront(lentil, st[0], st[1], v))
+                    n_hist += 1
+                    if o != tab(st):
+                        raise GeneratorError(
+                            f'{kind} {name} (clip={clip}) on {st}: a fresh plane object gives {tab(st)}, one that '
+                            f'was used before with a {w0} wavefront{" and then copied" if via_copy else ""} gives {o}: '
+                            f'the outcome is not a function of the types')
+    obs['history_observations'] = n_hist
+
     # implementation-defined facts about tilt (see Model/PType.v:doc_machine)
     obs['class_tilts'] = {}
     for k in classes:
-        ys = [obs['cls'][(k, (wt, False))] for wt in WTYPES]
-        obs['class_tilts'][k] = any(o[0] == 'yields' and o[1][1] for o in ys)
-    obs['fft_refuses_tilt'] = all(obs['prop'][('fft', (wt, True))] == ('raises', 'NotImplementedError', (wt, True))
+        ys = [obs['cls'][(k, False, (wt, 'plain'))] for wt in WTYPES]
+        obs['class_tilts'][k] = any(o[0] == 'yields' and o[1][1] == 'tilted' for o in ys)
+    obs['fft_refuses_tilt'] = all(obs['prop'][('fft', (wt, 'tilted'))] == ('raises', 'NotImplementedError', (wt, 'tilted'))
                                   for wt in WTYPES)
     return obs
 
 
 def _st(st):
-    return f'St {W_CON[st[0]]} {"true" if st[1] else "false"}'
+    return f'St {W_CON[st[0]]} {B_CON[st[1]]}'
 
 
 def _outcome(o):
     if o[0] == 'yields':
         return f'Yields ({_st(o[1])})'
     return f'Raises {EXC_CON.get(o[1], "EOther")} ({_st(o[2])})'
+
+
+def _b(x):
+    return 'true' if x else 'false'
 
 
 def render(obs):
@@ -294,8 +383,8 @@ def render(obs):
     a = L.append
     a('(* GENERATED by harness/gen_ptype.py from the working tree of lentil -- do not edit.')
     a('   The plane-type transition function of the implementation, observed exhaustively on the')
-    a('   real classes: wavefront state (ptype x carries tilt) x (Plane(ptype=p) | public plane class |')
-    a('   propagate_dft / propagate_fft). *)')
+    a('   real classes: wavefront state (ptype x content) x (Plane(ptype=p) | public plane class, each with')
+    a('   an overlapping and with a disjoint aperture | propagate_dft / propagate_fft). *)')
     a('From LV Require Import Model.PType.')
     a('')
     a('(* the public plane classes of the lentil namespace *)')
@@ -311,34 +400,36 @@ def render(obs):
     a('  match k with ' + ' | '.join(f'{K[k]} => {P_CON[obs["class_ptype"][k]]}' for k in classes) + ' end.')
     a('')
     a('(* w * Plane(ptype=p, ...) *)')
-    a('Definition observed_mul (s : wstate) (p : ptype) : outcome :=')
-    a('  match ty s, tilted s, p with')
+    a('Definition observed_mul (s : wstate) (p : ptype) (clip : bool) : outcome :=')
+    a('  match ty s, body s, p, clip with')
     for st in obs['states']:
         for p in PTYPES:
-            a(f'  | {W_CON[st[0]]}, {"true" if st[1] else "false"}, {P_CON[p]} => {_outcome(obs["mul"][(st, p)])}')
+            for clip in (False, True):
+                a(f'  | {W_CON[st[0]]}, {B_CON[st[1]]}, {P_CON[p]}, {_b(clip)} => {_outcome(obs["mul"][(st, p, clip)])}')
     a('  end.')
     a('')
     a('(* w * <class>(...) *)')
-    a('Definition observed_class_mul (k : cls) (s : wstate) : outcome :=')
-    a('  match k, ty s, tilted s with')
+    a('Definition observed_class_mul (k : cls) (clip : bool) (s : wstate) : outcome :=')
+    a('  match k, clip, ty s, body s with')
     for k in classes:
-        for st in obs['states']:
-            a(f'  | {K[k]}, {W_CON[st[0]]}, {"true" if st[1] else "false"} => {_outcome(obs["cls"][(k, st)])}')
+        for clip in (False, True):
+            for st in obs['states']:
+                a(f'  | {K[k]}, {_b(clip)}, {W_CON[st[0]]}, {B_CON[st[1]]} => {_outcome(obs["cls"][(k, clip, st)])}')
     a('  end.')
     a('')
     a('(* propagate_dft(w, ...) / propagate_fft(w, ...) *)')
     a('Definition observed_prop (m : method) (s : wstate) : outcome :=')
-    a('  match m, ty s, tilted s with')
+    a('  match m, ty s, body s with')
     for m in METHODS:
         for st in obs['states']:
-            a(f'  | {M_CON[m]}, {W_CON[st[0]]}, {"true" if st[1] else "false"} => {_outcome(obs["prop"][(m, st)])}')
+            a(f'  | {M_CON[m]}, {W_CON[st[0]]}, {B_CON[st[1]]} => {_outcome(obs["prop"][(m, st)])}')
     a('  end.')
     a('')
     a('(* implementation-defined facts about fitted tilt: which classes attach one (informational), and')
     a('   whether propagate_fft refuses a wavefront that carries one (parameter of the documented machine) *)')
     a('Definition observed_class_tilts (k : cls) : bool :=')
-    a('  match k with ' + ' | '.join(f'{K[k]} => {"true" if obs["class_tilts"][k] else "false"}' for k in classes) + ' end.')
-    a(f'Definition observed_fft_refuses_tilt : bool := {"true" if obs["fft_refuses_tilt"] else "false"}.')
+    a('  match k with ' + ' | '.join(f'{K[k]} => {_b(obs["class_tilts"][k])}' for k in classes) + ' end.')
+    a(f'Definition observed_fft_refuses_tilt : bool := {_b(obs["fft_refuses_tilt"])}.')
     a('')
     a('Definition observed : machine cls :=')
     a('  {| m_mul := observed_mul; m_class := observed_class_mul; m_prop := observed_prop |}.')
